@@ -194,6 +194,18 @@ def c18_2(ctx):
     ctx.check(ok, 'space:InstructioParser.parse_instruction', pi.site(sp[0]) if sp else pi.site(), 'mnemonic and operands are separated by any whitespace', '; '.join(unparse(s) for s in sp))
 
 
+def _flatten(seq):
+    for op, av in seq:
+        yield op, av
+        if isinstance(av, tuple):
+            for x in av:
+                if hasattr(x, '__iter__') and not isinstance(x, (str, bytes)):
+                    try:
+                        yield from _flatten([y for y in x if isinstance(y, tuple) and len(y) == 2])
+                    except TypeError:
+                        pass
+
+
 def c18_3(ctx):
     ctx.rule('C18.3', 'blank lines, comments, label placement and compound lines', 6)
     load = ctx.repo.func(LOAD)
@@ -211,6 +223,16 @@ def c18_3(ctx):
     pat = ctx.fold.class_const('bespokeasm.assembler.line_object.factory.LineOjectFactory', 'PATTERN_INSTRUCTION_CONTENT').pattern
     ok = ok and pat.startswith('^([^;') and '(?:;.*)?$' in pat
     ctx.check(ok, 'surface:comment-stripped', pl.site(), 'everything from the first `;` on is removed before the line is parsed', pat)
+    # #include lines are dispatched before comments are stripped: their pattern must tolerate what follows the closing quote
+    import re._parser as _P
+    rx_ = ctx.fold.class_const('bespokeasm.assembler.assembly_file.AssemblyFile', 'PATTERN_INCLUDE_FILE')
+    items = list(_P.parse(rx_.pattern, rx_.flags))
+    gi = next((i for i, (op, av) in enumerate(items) if str(op) == 'SUBPATTERN' and av[0] == 1), None)
+    tail = items[gi + 2:] if gi is not None else None
+    ok = tail is not None and (not any(str(op) == 'AT' and 'END' in str(av) for op, av in tail) or any(str(op) == 'LITERAL' and av == ord(';') for op, av in _flatten(tail)))
+    ctx.check(ok, 'surface:include-line-comment', 'src/bespokeasm/assembler/assembly_file.py:' + str(ctx.repo.cls('bespokeasm.assembler.assembly_file.AssemblyFile').node.lineno),
+              'an #include line may carry a comment after the closing quote (the pattern is not anchored at the end of the line, or allows `;...`)',
+              'the include pattern must match up to the end of the line: `#include "x.asm" ; note` is rejected')
     wl = [w for w in walk_no_nested(pl.node) if isinstance(w, ast.While)]
     ok = len(wl) == 1 and unparse(wl[0].test) == 'len(instruction_str) > 0'
     ctx.check(ok, 'surface:compound-lines', pl.site(wl[0]) if wl else pl.site(), 'statements on one line are consumed one after another until the line is empty', '')
@@ -228,9 +250,17 @@ def c18_3(ctx):
     c06_4(ctx)
 
 
-RULES = [c18_1, c18_2, c18_3]
+def c18_scopes(ctx):
+    """`label: stmt` and `label:` / `stmt` on two lines resolve local labels alike only if every line object gets the scope
+    current at its own position (C06.4, run in C18.3) through accessors that store exactly what they are given (C06.9)."""
+    from rules.c06 import c06_9
+    c06_9(ctx)
+
+
+RULES = [c18_1, c18_2, c18_3, c18_scopes]
 
 MUTANTS = [
+    V('c18-include-anchored', 'assembler/assembly_file.py', "([\\w\\.\\-\\_]+)(?:\\'|\\\")',", "([\\w\\.\\-\\_]+)(?:\\'|\\\")\\s*$',", 'C18.3'),
     V('c18-lookup-no-lower', 'assembler/model/instruction_parser.py', "        mnemonic = instr_parts[0].lower()", "        mnemonic = instr_parts[0]", 'C13.6'),
     V('c18-register-case-sensitive', 'assembler/model/operand/types/register.py', "            operand.strip(),\n            flags=re.IGNORECASE,\n        )", "            operand.strip(),\n        )", 'C18.1'),
     V('c18-indexed-compare', 'assembler/model/operand/types/indexed_register.py', "            if matched_register.lower() != self.register.lower():", "            if matched_register != self.register:", 'C18.1'),
